@@ -455,7 +455,10 @@ def _evaluate(case, box, out):
         if not validates and started:
             out.fail("C18.validator-started", f"started|{entry}|{'invalid-form' if not form_ok else 'skip'}", "the validator was started although it must not be")
 
-    exp_msg = "ODK Validate Errors:\n" + "\n".join(box.expected_lines)
+    # (the statement is about the validator's lines: white space before the first and after the last of them is not part of any line's
+    # content -- the stream is trimmed as a whole)
+    body_lines = "\n".join(box.expected_lines).strip().splitlines()
+    exp_msg = "ODK Validate Errors:\n" + "\n".join(body_lines)
 
     # ---- library entry
     if entry == "lib":
@@ -547,7 +550,7 @@ def _evaluate(case, box, out):
                     out.fail("C18.cli-plain", f"not-reported|{cell}", f"no ODKValidateError logged: {se[-200:]}")
                 if verdict == "reject":
                     out.checked("C18.cleaned-message")
-                    missing = [ln for ln in box.expected_lines if ln not in se]
+                    missing = [ln for ln in body_lines if ln not in se]
                     if missing:
                         out.fail("C18.cleaned-message", "plain-missing-line", f"lines missing from the log: {missing[:3]}")
             elif verdict == "no-java":
